@@ -308,6 +308,10 @@ func (r *Raft) onSnapshotTaken(t snapTaken) {
 				verifPoint("snaptaken.precompact", r.snaps.dir)
 			}
 			_ = r.compactLog(nowCompact)
+			if r.state == Leader && r.ldr.removeLTE < r.log.PrevIndex() {
+				// views handed to replications start at removeLTE
+				r.ldr.removeLTE = r.log.PrevIndex()
+			}
 		}
 		if canCompact > nowCompact {
 			// notify repls with new logView
